@@ -114,7 +114,17 @@ class LayerMerger(LayerMerger):
                 else:
                     result.paste(img, (0, 0))
             else:
-                if opacity is not None and opacity < 1.0:
+                if opacity is not None and opacity < 1.0 and img.mode in ('RGBA', 'P'):
+                    # keep the transparency of the layer: fade-out its alpha and paste with it
+                    img = img.convert('RGBA')
+                    alpha = img.split()[3]
+                    alpha = ImageChops.multiply(
+                        alpha,
+                        ImageChops.constant(alpha, int(255 * opacity))
+                    )
+                    img.putalpha(alpha)
+                    result.paste(img, (0, 0), img)
+                elif opacity is not None and opacity < 1.0:
                     img = img.convert(result.mode)
                     result = Image.blend(result, img, layer_image_opts.opacity)
                 elif img.mode in ('RGBA', 'P'):
